@@ -440,7 +440,7 @@ def run_plan(inst, pre, plan, recorder=None, digest=None):
         out = {'violation': viol, 'log': list(s.log), 'steps': list(s.steps),
                'knobs': knobs,
                'calls': calls, 'lock_handovers': s.lock_handovers,
-               'net_waits': s.net_waits,
+               'net_waits': s.net_waits, 'ops_deferred': s.ops_deferred,
                'ops_applied': applied[0], 'simtime': ds.fs.simtime}
         if digest is not None:
             digest.add('plan', plan, out['log'], calls, viol and viol['sig'])
@@ -686,11 +686,12 @@ def run_one(base, i, prop=None, mode='random'):
         nsw = 0
         for (who, st, why, pos) in out['log']:
             if why == 'plan' and pos is not None:
-                positions.add('%s:%s:%d' % pos)
+                positions.add('%s:%s:%s' % pos)
                 nsw += 1
         cnt.hit('context_switches', nsw)
         cnt.hit('switches_%d' % min(nsw, 5))
         cnt.merge(out['knobs'])
+        cnt.hit('edits_deferred_past_a_load_step', out['ops_deferred'])
         cnt.hit('fault:lock_handover', out['lock_handovers'])
         cnt.hit('fault:switch_while_waiting_for_peer', out['net_waits'])
         if inst.get('cold'):
